@@ -12,7 +12,7 @@ let handle (line : string) : string =
      | [kind; red; h; npos; nneg; "1"] when kind = "khi" || kind = "sym" ->
         let l = parse_link ls in
         let red = (red = "1") in
-        let (np, nn) = (int_of_string npos, int_of_string nneg) in
+        (match model_signs l (int_of_string npos) (int_of_string nneg) with Error e -> e | Ok (np, nn) ->
         let rede = if red then Some (nat_of_int 1) else None in
         let hz = z_of_string h in
         if kind = "khi" then
@@ -40,7 +40,7 @@ let handle (line : string) : string =
           let c = build_cube l rede hz Z0 in
           (match kh_groups c with
            | None -> "MODEL-NONE"
-           | Some gs -> "SAME " ^ table_of gs (- nn) "F2")
+           | Some gs -> "SAME " ^ table_of gs (- nn) "F2"))
      | "khi" :: _ | "sym" :: _ -> "SKIP"
      | _ -> "REL")
   | _ -> failwith "bad case"
